@@ -121,6 +121,8 @@ def search(chk, broken):
     n = 150 if (chk.tier == 'quick' and not broken) else 5000
     evals = 0
     for _ in range(n):
+        if chk.over():
+            break
         ln = rng.choice([0, 1, 2, 3, rng.randint(4, 30)])
         times, dists = gen_keys(rng, ln), gen_keys(rng, ln)
         p = rng.randrange(ln) if ln else 0
